@@ -185,29 +185,29 @@ Definition ntw (nt : nonterm) : nat :=
 Fixpoint wsum (nts : list nonterm) : nat :=
   match nts with [] => 0 | nt :: r => ntw nt + wsum r end.
 (* AndV / MaybeAndV on top re-expand while the look-ahead says "and_v" *)
-Definition corr (nts : list nonterm) (toks : list token) : nat :=
+Definition acorr (nts : list nonterm) (toks : list token) : nat :=
   if is_and_v toks then match nts with NtAndV :: _ => 4 | NtMaybeAndV :: _ => 2 | _ => 0 end else 0.
 Definition phi (s : dstate) : nat :=
-  20 * length (ds_toks s) + wsum (ds_nts s) + corr (ds_nts s) (ds_toks s).
+  20 * length (ds_toks s) + wsum (ds_nts s) + acorr (ds_nts s) (ds_toks s).
 
 Definition lt_res (bound : nat) (r : stepres) : Prop :=
   match r with SCont s' => (phi s' < bound)%nat | _ => True end.
 
-Lemma corr_le nts toks : (corr nts toks <= 4)%nat.
-Proof. unfold corr. destruct (is_and_v toks); [|lia]. destruct nts as [|[] ?]; lia. Qed.
+Lemma acorr_le nts toks : (acorr nts toks <= 4)%nat.
+Proof. unfold acorr. destruct (is_and_v toks); [|lia]. destruct nts as [|[] ?]; lia. Qed.
 
-Lemma corr_cons nt n t :
-  corr (nt :: n) t = if is_and_v t then match nt with NtAndV => 4%nat | NtMaybeAndV => 2%nat | _ => 0%nat end else 0%nat.
+Lemma acorr_cons nt n t :
+  acorr (nt :: n) t = if is_and_v t then match nt with NtAndV => 4%nat | NtMaybeAndV => 2%nat | _ => 0%nat end else 0%nat.
 Proof. reflexivity. Qed.
 
 Ltac pt :=
   unfold lt_res, phi in *; cbn [ds_toks ds_nts ds_terms wsum ntw length] in *;
-  rewrite ?corr_cons in *; cbn [ds_toks ds_nts ds_terms wsum ntw length] in *;
+  rewrite ?acorr_cons in *; cbn [ds_toks ds_nts ds_terms wsum ntw length] in *;
   repeat match goal with
-         | |- context [corr ?a ?b] =>
+         | |- context [acorr ?a ?b] =>
            lazymatch goal with
-           | H : (corr a b <= 4)%nat |- _ => fail
-           | _ => pose proof (corr_le a b)
+           | H : (acorr a b <= 4)%nat |- _ => fail
+           | _ => pose proof (acorr_le a b)
            end
          end;
   repeat match goal with
@@ -325,22 +325,22 @@ Proof.
     + (* Expression *) apply expr_step_lt. pt.
     + (* WExpression *) destruct toks as [|t r]; [exact I|]. destruct t; pt.
     + (* Swap *) destruct toks as [|t r]; [exact I|]. destruct t; try exact I. apply reduce1_lt. pt.
-    + (* MaybeAndV *) unfold phi, corr at 1. cbn [ds_toks ds_nts].
+    + (* MaybeAndV *) unfold phi, acorr at 1. cbn [ds_toks ds_nts].
       destruct (is_and_v toks) eqn:E.
-      * unfold lt_res, phi, corr. cbn [ds_toks ds_nts wsum ntw]. rewrite E. lia.
-      * unfold lt_res, phi, corr. cbn [ds_toks ds_nts wsum ntw]. rewrite E. lia.
+      * unfold lt_res, phi, acorr. cbn [ds_toks ds_nts wsum ntw]. rewrite E. lia.
+      * unfold lt_res, phi, acorr. cbn [ds_toks ds_nts wsum ntw]. rewrite E. lia.
     + (* Alt *) destruct toks as [|t r]; [exact I|]. destruct t; try exact I. apply reduce1_lt. pt.
     + apply reduce1_lt. pt.
     + apply reduce1_lt. pt.
     + apply reduce1_lt. pt.
     + apply reduce1_lt. pt.
     + apply reduce1_lt. pt.
-    + (* AndV *) unfold phi, corr at 1. cbn [ds_toks ds_nts].
+    + (* AndV *) unfold phi, acorr at 1. cbn [ds_toks ds_nts].
       destruct (is_and_v toks) eqn:E.
-      * unfold lt_res, phi, corr. cbn [ds_toks ds_nts wsum ntw]. rewrite E. lia.
+      * unfold lt_res, phi, acorr. cbn [ds_toks ds_nts wsum ntw]. rewrite E. lia.
       * unfold reduce2, reduce0. destruct terms as [|x [|y r]]; try exact I.
         destruct (from_ast e (MAndV x y)); [exact I|].
-        unfold lt_res, phi, corr. cbn [ds_toks ds_nts wsum ntw]. rewrite E. lia.
+        unfold lt_res, phi, acorr. cbn [ds_toks ds_nts wsum ntw]. rewrite E. lia.
     + apply reduce2_lt. pt.
     + (* Tern *) destruct terms as [|a [|b [|c0 rest]]]; try exact I. apply reduce0_lt. pt.
     + apply reduce2_lt. pt.
@@ -368,7 +368,7 @@ Qed.
 Theorem parse_no_fuel e toks : parse e toks <> OFuel.
 Proof.
   unfold parse, parse_fuel. apply run_fuel_enough.
-  unfold phi. cbn [ds_toks ds_nts wsum ntw]. rewrite rev_length. pose proof (corr_le [NtExpression; NtMaybeAndV] (rev toks)). lia.
+  unfold phi. cbn [ds_toks ds_nts wsum ntw]. rewrite rev_length. pose proof (acorr_le [NtExpression; NtMaybeAndV] (rev toks)). lia.
 Qed.
 
 (* decode_total: the decoder is total — an answer or an error class, within the fuel *)
